@@ -28,8 +28,8 @@ TABLE = {
         nontrivial=lambda n: _op(n) == "recv" and ((_kind(n) == "publish" and n["call"]["pkt"]["qos"] == 2) or _kind(n) == "pubrel"),
         profile="inbound"),
     "C08": dict(
-        quick=["qos_c311", "qos_offline", "gate", "ids_edge", "subs", "erase_reuse", "free_id"],
-        thorough=["qos_c311", "qos_c311_auto", "qos_c50", "qos_c50_rm", "qos_offline", "qos_server", "gate", "reuse_c", "ids_edge", "subs", "erase_reuse", "free_id"],
+        quick=["qos_c311", "qos_offline", "gate", "ids_edge", "subs", "erase_reuse", "free_id", "mps_resume"],
+        thorough=["qos_c311", "qos_c311_auto", "qos_c50", "qos_c50_rm", "qos_offline", "qos_server", "gate", "reuse_c", "ids_edge", "subs", "erase_reuse", "free_id", "mps_resume"],
         rule="an identifier is acquired, registered or released",
         nontrivial=lambda n: _op(n) in ("acquire", "register", "release") or any(e["ev"] == "released" for e in n["out"]),
         profile="ids"),
@@ -42,7 +42,7 @@ TABLE = {
         rule="send is called (one cell of role x version x state x kind)",
         nontrivial=lambda n: _op(n) == "send", profile="gate"),
     "C12": dict(
-        quick=["qos_c50_rm", "qos_server", "in_rm", "rm_alias", "in_rm_mps", "early_acks", "mps_resume"], thorough=["qos_c50_rm", "qos_c50", "qos_server", "in_rm", "crash_out", "rm_alias", "in_rm_mps", "mps_resume"],
+        quick=["qos_c50_rm", "qos_server", "in_rm", "rm_alias", "in_rm_mps", "early_acks", "mps_resume", "erase_rm"], thorough=["qos_c50_rm", "qos_c50", "qos_server", "in_rm", "crash_out", "rm_alias", "in_rm_mps", "mps_resume", "erase_rm"],
         rule="a Receive Maximum is in force (vacancy reported)",
         nontrivial=lambda n: n["obs"]["vacancy"] >= 0 or (_op(n) == "recv" and _kind(n) == "publish"), profile="qos"),
     "C13": dict(
